@@ -52,6 +52,9 @@ func c15Gen(rng *core.Rng, tier string) *harness.Plan {
 		big = 1
 	}
 	p.Params["big"] = big
+	if rng.Chance(0.6) {
+		p.Params["chain_skew_ms"] = int64(1 + rng.IntN(40))
+	}
 	w := []int{5 + rng.IntN(4), 2 + rng.IntN(3), 1 + rng.IntN(2), rng.IntN(3), rng.IntN(3), 4 + rng.IntN(4), rng.IntN(3), rng.IntN(2)}
 	kinds := []string{"deposit", "spend", "member", "poison", "clash", "snapshot", "share", "restart"}
 	for i := 0; i < n; i++ {
@@ -308,7 +311,10 @@ func c15Exec(p *harness.Plan) *harness.Outcome {
 				vers = append(vers, m.ver)
 			}
 			var werr error
-			if g := c.guard("write-panic", func() { _, werr = f.Finalize(node, ts, vers, nil) }); g != nil {
+			// chains carry their own clocks: a snapshot written later on another chain may well be stamped
+			// earlier than the one that first finalized a shared transaction (DAG, per-chain timestamps)
+			snapTs := ts - uint64(node)*uint64(p.P("chain_skew_ms", 0))*uint64(time.Millisecond)
+			if g := c.guard("write-panic", func() { _, werr = f.Finalize(node, snapTs, vers, nil) }); g != nil {
 				return g
 			}
 			after := f.Dump()
